@@ -476,10 +476,12 @@ def _run(chk, wd, proved):
                                          '%d such runs explored, all agree with the model' % known_plog)
     # ---- level B
     scases, smeta = [], []
+    njudged_b = 0
     for job, (total, n, badj) in zip(sjobs, sres):
         nruns += n
         chk.dist('sum:n=%d' % len(job[0]), n)
-        for mask, why in badj[:3]:
+        for mask, why in (badj[:3] if njudged_b < 10 else []):
+            njudged_b += 1
             fr = H.frag_syms(table, job[0], mask) + ([b''] if job[3] else [])
             chk.violation({'kind': 'the implementation violates C08 on this input (judged by the reference splitter)',
                            'why': why, 'case': _jsonable_job(('sum', fr, job[1], 'stdout', False, job[2]))})
